@@ -218,7 +218,7 @@ RefValues refEvaluate(const Ctx& ctx, const TreeView& v, const std::vector<int>&
     RefValues r;
     const int h = ctx.height;
     const long up = ctx.upper;
-    const U key = ctx.runKey;
+    const U key = ctx.runKey ^ ctx.kernelParam;
     const int tgtTree = ctx.tsm ? 1 : 0;
     RefGrid grid;
     std::vector<Coord> l0, l1;
